@@ -87,11 +87,17 @@ def _err_type_of(ty):
     return m.group(2).strip() if m else ""
 
 
-def _err_payload_used(b, local):
-    """Some statement or call reads `(local as Err).0` (moves it, borrows it, inspects it)."""
+def _err_payload_used(b, local, under_some=False):
+    """Some statement or call reads `(local as Err).0` (moves it, borrows it, inspects it); with under_some, the
+    Result is the payload of an Option held in `local`: `((local as Some).0 as Err).0`."""
 
     def mentions(p):
-        return p["l"] == local and any(e["k"] == "downcast" and e["variant"] == "Err" for e in p["pr"])
+        pr = p["pr"]
+        if under_some:
+            if not (len(pr) >= 2 and pr[0]["k"] == "downcast" and pr[0].get("variant") == "Some" and pr[1]["k"] == "field"):
+                return False
+            pr = pr[2:]
+        return p["l"] == local and any(e["k"] == "downcast" and e["variant"] == "Err" for e in pr)
 
     for bi in b.reach():
         blk = b.blocks[bi]
@@ -115,6 +121,60 @@ def _err_payload_used(b, local):
         if t["k"] == "switch" and t["discr"].get("k") in ("copy", "move") and mentions(t["discr"]["p"]):
             return True
     return False
+
+
+def _classify_optional_result(b, local):
+    """None when the `Err` inside an `Option<Result<_, E>>` local is handled (the whole value or the inner Result
+    is handed on, returned or propagated, or its error payload is read); else a short description."""
+    inner = []  # locals that receive the Some payload
+    whole_ok = False
+    in_place = False
+    for bi, idx, how in uses_of_local(b, local):
+        if how == "drop":
+            continue
+        if isinstance(how, tuple) and how[0] == "callarg":
+            whole_ok = True
+        elif how == "stmt":
+            s_ = b.blocks[bi]["stmts"][idx]
+            rv = s_["rv"]
+            if rv["k"] == "discr":
+                pr = rv["p"]["pr"]
+                if len(pr) >= 2 and pr[0]["k"] == "downcast" and pr[0].get("variant") == "Some":
+                    in_place = True
+                continue
+            if rv["k"] == "use" and is_place(rv["op"]) and rv["op"]["p"]["l"] == local:
+                pr = rv["op"]["p"]["pr"]
+                if not pr:
+                    if s_["p"]["l"] == 0:
+                        whole_ok = True
+                    elif not s_["p"]["pr"]:
+                        v2 = _classify_optional_result(b, s_["p"]["l"])
+                        if v2 is None:
+                            whole_ok = True
+                    else:
+                        whole_ok = True
+                elif len(pr) == 2 and pr[0]["k"] == "downcast" and pr[0].get("variant") == "Some" and pr[1]["k"] == "field" and not s_["p"]["pr"]:
+                    inner.append(s_["p"]["l"])
+                elif len(pr) > 2:
+                    in_place = True
+            elif rv["k"] in ("ref", "aggregate"):
+                whole_ok = True
+        elif how == "ret":
+            whole_ok = True
+    if whole_ok:
+        return None
+    for r in inner:
+        cls = _classify_uses(b, r)
+        good = cls & {"consumed", "inspected", "returned"}
+        if good == {"inspected"} and not _err_payload_used(b, r):
+            return "matched on but never read"
+        if good:
+            return None
+    if in_place:
+        return None if _err_payload_used(b, local, under_some=True) else "matched on but never read"
+    if inner:
+        return "dropped"
+    return None
 
 
 def _diagnostic_before_exit(b, bb, t):
@@ -159,6 +219,8 @@ def r12_1(ctx):
         budget[(e["crate"], e["file"], e["callee"], e["form"])] = budget.get((e["crate"], e["file"], e["callee"], e["form"]), 0) + e.get("count", 1)
     used = {}
     seen_ok = {}
+    pending = []
+    moved_from = {}
     n = 0
     for crate in (ctx.lib, ctx.bin):
         for b in crate.bodies:
@@ -167,6 +229,18 @@ def r12_1(ctx):
                 if d["pr"]:
                     continue
                 ty = b.local_ty(d["l"])
+                if ty.startswith("std::option::Option<std::result::Result<") and d["l"] != 0:
+                    # an item of a fallible iterator (`chunker.next()`, `chars.next()`): the Result inside the Some
+                    ety = _err_type_of(ty[len("std::option::Option<"):-1])
+                    if any(ety.startswith(x) for x in IO_CAPABLE):
+                        f = fn_of(t) or {}
+                        n += 1
+                        verdict = _classify_optional_result(b, d["l"])
+                        k = (crate.kind, b.id, f.get("name", "?") + "?")
+                        seen_ok[k] = seen_ok.get(k, 0) + 1
+                        ctx.ob(f"handled:{crate.kind}:{b.id}:{f.get('name', '?')}:item:{seen_ok[k] - 1}", verdict is None, site(b, bb),
+                               "the item's error is propagated, returned or looked at" if verdict is None else f"the `Err` inside the item of `{f.get('def')}` is {verdict}: a failing source would be skipped over silently")
+                    continue
                 if not ty.startswith("std::result::Result<"):
                     continue
                 if d["l"] == 0:
@@ -205,8 +279,24 @@ def r12_1(ctx):
                     ctx.ob(f"reviewed:{crate.kind}:{b.name}:{f.get('name')}:{form}:{used[key]}", True, site(b, bb),
                            "reviewed exception: " + [e["reason"] for e in reviewed if (e["crate"], e["file"], e["callee"], e["form"]) == key][0], trivial=True)
                 else:
-                    ctx.ob(f"discarded:{crate.kind}:{b.name}:{f.get('name')}:{form}", False, site(b, bb),
-                           f"the Result of `{f.get('def')}` is {form}: an I/O or parse failure here would go unnoticed")
+                    pending.append((key, crate, b, bb, f, form))
+    # a reviewed exception whose function moved to another file (same function name, same callee, same form):
+    # the entry of the old file, now under-used, covers it
+    for key, crate, b, bb, f, form in pending:
+        donor = None
+        for e in reviewed:
+            ek = (e["crate"], e["file"], e["callee"], e["form"])
+            if e["crate"] == crate.kind and e["file"] != b.file and e["callee"] == f.get("name", "?") and e["form"] == form and e["function"].rsplit("::", 1)[-1] == b.name:
+                if min(used.get(ek, 0), budget.get(ek, 0)) + moved_from.get(ek, 0) < budget.get(ek, 0):
+                    donor = (ek, e)
+                    break
+        if donor:
+            moved_from[donor[0]] = moved_from.get(donor[0], 0) + 1
+            ctx.ob(f"reviewed:{crate.kind}:{b.name}:{f.get('name')}:{form}:moved:{moved_from[donor[0]]}", True, site(b, bb),
+                   f"reviewed exception (the function moved here from {donor[1]['file']}): " + donor[1]["reason"], trivial=True)
+        else:
+            ctx.ob(f"discarded:{crate.kind}:{b.name}:{f.get('name')}:{form}", False, site(b, bb),
+                   f"the Result of `{f.get('def')}` is {form}: an I/O or parse failure here would go unnoticed")
     ctx.ob("result-producing-calls", n >= 60, "lib+bin", f"{n} Result-producing call site(s) examined")
     for key, cnt in budget.items():
         if used.get(key, 0) < cnt:
@@ -224,6 +314,36 @@ def r12_1(ctx):
                     if not (_classify_uses(b[0], d["l"]) & {"consumed", "inspected", "returned"}):
                         flagged += 1
         ctx.ob("control:classifier", flagged >= 5, "tables/controls/src/lib.rs", f"classifier flags {flagged} of the 5 discarding forms in the positive control", trivial=True)
+
+
+def _some_payload_returned(b, res):
+    """The value taken out of the slot (`res: Option<io::Error>`) is, on its Some arm, the error the function
+    returns: some definition of the return value (or of the Err it wraps) traces back to `(res as Some).0`."""
+    cands = []
+    for dbb, idx, kind, payload in b.whole_defs(0):
+        if kind == "assign" and payload["rv"]["k"] == "aggregate" and payload["rv"]["ops"]:
+            cands.append(payload["rv"]["ops"][0])
+        elif kind == "assign" and payload["rv"]["k"] == "use":
+            cands.append(payload["rv"]["op"])
+    work = list(cands)
+    seen = 0
+    while work and seen < 40:
+        seen += 1
+        o = work.pop()
+        if not is_place(o):
+            continue
+        tr = trace(b, o)
+        if tr.origin and tr.origin[0] == "call" and not tr.origin[2]["dest"]["pr"] and tr.origin[2]["dest"]["l"] == res and any(st[0] == "downcast" and st[1] == "Some" for st in tr.steps):
+            return True
+        if tr.origin and tr.origin[0] == "multi":
+            for _, _, k, p_ in tr.origin[2]:
+                if k == "assign" and p_["rv"]["k"] == "use":
+                    work.append(p_["rv"]["op"])
+                elif k == "assign" and p_["rv"]["k"] == "aggregate":
+                    work.extend(p_["rv"]["ops"])
+        if tr.origin and tr.origin[0] == "agg":
+            work.extend(tr.origin[1]["rv"]["ops"])
+    return False
 
 
 @rule("R12.2", 5, "the reader's own error is what comes back from the YAML parser binding: stashed on failure, cleared on success, taken before any fallback", ["C12"])
@@ -293,6 +413,9 @@ def r12_2(ctx):
         res = t["dest"]["l"]
         nxt = [fn_of(tt)["name"] for ub, tt in b.calls() if any(is_place(a) and a["p"]["l"] == res for a in tt["args"])]
         ok = any(n in ("unwrap_or_else", "unwrap_or", "or_else", "ok_or", "ok_or_else", "map_or_else") for n in nxt) or bool(__import__("r_bin").result_switches(b, res))
+        if ok and not any(n in ("unwrap_or_else", "unwrap_or", "or_else", "ok_or", "ok_or_else", "map_or_else") for n in nxt):
+            # matched on by hand: the Some payload itself must be what is handed back
+            ok = _some_payload_returned(b, res)
         ctx.ob(f"next_event:stashed-error-first:{b.name}", ok, site(b, bb), f"stashed error is preferred; fallback only when none ({nxt})" if ok else "the stashed reader error is taken but not returned")
     # the chunker wraps, not replaces: io::Error::new(kind, err) with err as payload
     ch = common.chunker(ctx.facts)
